@@ -126,6 +126,11 @@ def gen_cases(rng, tier):
             else:
                 members.append(_gen_rec(r))
         if r.chance(30):
+            # two members built from the SAME descriptor (fresh values): both are members, the first one wins
+            src_ = r.choice([m_ for m_ in members if m_[0] == "rec"] or [None])
+            if src_ is not None:
+                members.insert(r.randint(1, len(members)), ["rec", src_[1], [_gen_val(r, t) for t, _ in src_[1][1]], V.gen_meta(r)])
+        if r.chance(30):
             # a member field spelled like an attribute of the group object
             tgt = r.choice([m_ for m_ in members if m_[0] == "rec"] or [None])
             if tgt is not None and tgt[1][1]:
@@ -295,7 +300,30 @@ def run_real(case):
                 asd_exc = [[kk, V.observe(v)] for kk, v in g._asdict(exclude=sel).items()]
             except Exception as e:
                 asd, asd_sel, asd_exc, sel = {"error": type(e).__name__}, None, None, []
-            res = {"inputs": before, "inputs_after": [obs_rec(x) for x in g.records], "keys": keys, "values": vals,
+            # transport: the group through a binary stream and through the JSON packer (flat view)
+            transport = {}
+            try:
+                import io as _io
+                import json as _json
+
+                from flow.record import RecordStreamReader, RecordStreamWriter
+                from flow.record.jsonpacker import JsonRecordPacker
+                buf = _io.BytesIO()
+                w_ = RecordStreamWriter(buf)
+                w_.write(g)
+                w_.flush()
+                w_.fp = None
+                back = list(RecordStreamReader(_io.BytesIO(buf.getvalue())))
+                transport["stream"] = {"count": len(back), "members": len(back[0].records) if back else None,
+                                       "asdict": [[kk, V.observe(v)] for kk, v in back[0]._asdict().items()] if back else []}
+            except Exception as e:          # noqa: BLE001
+                transport["stream"] = {"error": type(e).__name__ + ": " + str(e)[:80]}
+            try:
+                doc = _json.loads(JsonRecordPacker().pack(g))
+                transport["json"] = {kk: v for kk, v in doc.items() if isinstance(v, (str, int)) and not isinstance(v, bool)}
+            except Exception as e:          # noqa: BLE001
+                transport["json"] = {"error": type(e).__name__}
+            res = {"inputs": before, "inputs_after": [obs_rec(x) for x in g.records], "keys": keys, "values": vals, "transport": transport,
                    "asdict": asd, "asdict_sel": asd_sel, "asdict_exc": asd_exc, "sel": sel,
                    "output": {"name": g._desc.name, "fields": [list(t) for t in g._desc.get_field_tuples()]}}
             if case.get("assign"):
@@ -514,6 +542,34 @@ def oracle(case, obs):
                 missing = [kk for kk in vals if pred(kk) and kk not in [g_[0] for g_ in got]]
                 if missing:
                     return f"grouped.{what} lacks {missing[:3]}"
+        tr = obs.get("transport") or {}
+        SIMPLE = ("str", "int", "none", "pybool", "boolean", "float", "bytes")
+        st = tr.get("stream")
+        if st and isinstance(obs.get("asdict"), list):
+            if "error" in st:
+                # (a value the binary packer cannot serialise is C01's business; a lost definition is not)
+                if "Descriptor" in st["error"] or "KeyError" in st["error"]:
+                    return f"grouped record through a binary stream: {st['error']}"
+            else:
+                if st["count"] != 1 or st["members"] != len(ins):
+                    return (f"grouped record through a binary stream: {st['count']} object(s) with {st['members']} members come "
+                            f"back, {len(ins)} members were written")
+                got = dict((kk, v) for kk, v in st["asdict"])
+                canon_ = lambda o: (o[0], o[2]) if o and o[0] in ("int", "str", "float") else ("none",) if o == ["none"] else None   # noqa: E731
+                for kk, v in obs["asdict"]:
+                    if canon_(v) is not None and canon_(got.get(kk) or ["?"]) != canon_(v):
+                        return (f"grouped record through a binary stream: flat field {kk} is {json.dumps(got.get(kk))[:70]} "
+                                f"instead of {json.dumps(v)[:70]}")
+        js = tr.get("json")
+        if js and "error" not in js and isinstance(obs.get("asdict"), list):
+            for kk, v in obs["asdict"]:
+                if kk in ("_type", "_recorddescriptor"):
+                    continue
+                if v[0] == "str" and v[1] == "string" and kk in js and js[kk] != V.dec_str(v[2]):
+                    if not any(0xD800 <= ord(ch_) <= 0xDFFF for ch_ in V.dec_str(v[2])):
+                        return f"grouped record as JSON: {kk} is {js[kk]!r:.60} instead of {V.dec_str(v[2])!r:.60}"
+                if v[0] == "int" and v[1] == "varint" and kk in js and js[kk] != int(v[2]):
+                    return f"grouped record as JSON: {kk} is {js[kk]!r:.60} instead of {v[2]}"
         a = obs.get("assign")
         if a:
             fn = case["assign"][0]
